@@ -694,25 +694,114 @@ def inline_new_helpers(trees: Dict[str, ast.Module], known: Set[str]) -> List[st
     return expanded
 
 
+def _split_record_sites(fn, records) -> None:
+    """A local built as a record in several branches (`v = R(..)` in the if-arm and in the else-arm), every use of which comes after
+    exactly one of the constructions inside the same block, is split into one local per construction site."""
+    asg: Dict[str, List[ast.stmt]] = {}
+    other: Set[str] = set()
+    for st in _own_nodes(fn):
+        if isinstance(st, ast.Assign) and len(st.targets) == 1 and isinstance(st.targets[0], ast.Name):
+            v = st.value
+            f_ = v.func if isinstance(v, ast.Call) else None
+            if isinstance(f_, ast.Subscript):
+                f_ = f_.value
+            if isinstance(f_, ast.Name) and f_.id in records:
+                asg.setdefault(st.targets[0].id, []).append(st)
+            else:
+                other.add(st.targets[0].id)
+        elif isinstance(st, (ast.AugAssign, ast.AnnAssign)) and isinstance(st.target, ast.Name):
+            other.add(st.target.id)
+    lists: List[List[ast.stmt]] = []
+    for n in ast.walk(fn):
+        for fld in ("body", "orelse", "finalbody"):
+            v = getattr(n, fld, None)
+            if isinstance(v, list) and v and isinstance(v[0], ast.stmt):
+                lists.append(v)
+    for var, sts in asg.items():
+        if len(sts) < 2 or var in other:
+            continue
+        scopes = []
+        for st in sts:
+            L = next((l_ for l_ in lists if any(x is st for x in l_)), None)
+            if L is None:
+                scopes = []
+                break
+            k = next(i for i, x in enumerate(L) if x is st)
+            scopes.append(L[k:])
+        if not scopes:
+            continue
+        owner: Dict[int, int] = {}
+        ok = True
+        for n in ast.walk(fn):
+            if isinstance(n, ast.Name) and n.id == var:
+                own_ = [i for i, sc in enumerate(scopes) if any(n is y for x in sc for y in ast.walk(x))]
+                if len(own_) != 1:
+                    ok = False
+                    break
+                owner[id(n)] = own_[0]
+        if not ok:
+            continue
+        for n in ast.walk(fn):
+            if isinstance(n, ast.Name) and n.id == var:
+                n.id = f"{var}_{owner[id(n)] + 1}"
+
+
+def _bind_method(m: ast.FunctionDef, call: ast.Call) -> Optional[Dict[str, ast.AST]]:
+    """parameter name -> argument expression for a call of the one-expression method m (self excluded); None when the call cannot be
+    matched (star arguments, unknown keyword, a missing argument without a default) or an argument is not a plain expression."""
+    params = [a.arg for a in m.args.args[1:]] + [a.arg for a in m.args.kwonlyargs]
+    pos = [a.arg for a in m.args.args[1:]]
+    if any(isinstance(a, ast.Starred) for a in call.args) or any(k.arg is None for k in call.keywords) or len(call.args) > len(pos):
+        return None
+    out: Dict[str, ast.AST] = dict(zip(pos, call.args))
+    for k in call.keywords:
+        if k.arg not in params or k.arg in out:
+            return None
+        out[k.arg] = k.value
+    defaults = dict(zip(reversed(pos), reversed(m.args.defaults)))
+    for a, d in zip(m.args.kwonlyargs, m.args.kw_defaults):
+        if d is not None:
+            defaults[a.arg] = d
+    for p_ in params:
+        if p_ not in out:
+            if p_ not in defaults:
+                return None
+            out[p_] = defaults[p_]
+    # each parameter must be used at most once in the expression, or its argument be a plain name / attribute / constant (no re-evaluation)
+    expr = _body_wo_doc(m)[0].value
+    for p_, a_ in out.items():
+        n_use = sum(1 for x in ast.walk(expr) if isinstance(x, ast.Name) and x.id == p_)
+        if n_use > 1 and not isinstance(a_, (ast.Name, ast.Attribute, ast.Constant)):
+            return None
+    return out
+
+
 def scalarize_new_aggregates(trees: Dict[str, ast.Module], known_classes: Set[str]) -> List[str]:
     """A local variable holding an instance of a record class introduced after the rules were written (a dataclass / NamedTuple
     grouping values that used to be separate locals), and only ever used as `v.<field>`, is read as the separate locals
     `v__<field>` again (scalar replacement of aggregates)."""
     records: Dict[str, Dict[str, Optional[ast.AST]]] = {}
+    methods: Dict[str, Dict[str, ast.FunctionDef]] = {}
     for t in trees.values():
         for c in t.body:
             if isinstance(c, ast.ClassDef) and c.name not in known_classes:
                 fields: Dict[str, Optional[ast.AST]] = {}
+                meths: Dict[str, ast.FunctionDef] = {}
                 ok = True
                 for st in c.body:
                     if isinstance(st, ast.AnnAssign) and isinstance(st.target, ast.Name):
                         fields[st.target.id] = st.value
                     elif isinstance(st, ast.Expr) and isinstance(st.value, ast.Constant):
                         continue
+                    elif isinstance(st, ast.FunctionDef) and not st.decorator_list and st.args.args and not st.args.vararg and not st.args.kwarg \
+                            and len(_body_wo_doc(st)) == 1 and isinstance(_body_wo_doc(st)[0], ast.Return) and _body_wo_doc(st)[0].value is not None:
+                        # a method that is one expression over the fields and its parameters: expanded at its calls
+                        meths[st.name] = st
                     else:
                         ok = False
                 if ok and fields:
                     records[c.name] = fields
+                    methods[c.name] = meths
     done: List[str] = []
     if not records:
         return done
@@ -731,7 +820,8 @@ def scalarize_new_aggregates(trees: Dict[str, ast.Module], known_classes: Set[st
 
     for t in trees.values():
         for fn in [n for n in ast.walk(t) if isinstance(n, FuncDef)]:
-            inst: Dict[str, Tuple[str, ast.stmt]] = {}
+            _split_record_sites(fn, records)
+            inst: Dict[str, Tuple[str, List[ast.stmt]]] = {}
             for st in _own_nodes(fn):
                 tgt = val = None
                 if isinstance(st, ast.AnnAssign) and isinstance(st.target, ast.Name):
@@ -742,14 +832,21 @@ def scalarize_new_aggregates(trees: Dict[str, ast.Module], known_classes: Set[st
                     f_ = val.func
                     if isinstance(f_, ast.Subscript):
                         f_ = f_.value
-                    if isinstance(f_, ast.Name) and f_.id in records and not val.args:
-                        if tgt in inst:
-                            inst[tgt] = ("", st)  # assigned twice: give up
+                    if isinstance(f_, ast.Name) and f_.id in records and len(val.args) <= len(records[f_.id]) \
+                            and not any(isinstance(a_, ast.Starred) for a_ in val.args) and all(k_.arg for k_ in val.keywords):
+                        if tgt in inst and inst[tgt][0] != f_.id:
+                            inst[tgt] = ("", [st])  # two kinds of value: give up
+                        elif tgt in inst:
+                            inst[tgt][1].append(st)  # built in several branches, every time as a whole
                         else:
-                            inst[tgt] = (f_.id, st)
-            for var, (cls, st) in list(inst.items()):
+                            inst[tgt] = (f_.id, [st])
+                        continue
+                if tgt and tgt in inst:
+                    inst[tgt] = ("", [st])  # also assigned something else: give up
+            for var, (cls, sts) in list(inst.items()):
                 if not cls:
                     continue
+                st = sts[0]
                 # every use of var (nested closures included) must be var.<field>
                 uses_ok = True
                 parents: Dict[int, ast.AST] = {}
@@ -759,40 +856,97 @@ def scalarize_new_aggregates(trees: Dict[str, ast.Module], known_classes: Set[st
                 for n in ast.walk(fn):
                     if isinstance(n, ast.Name) and n.id == var:
                         par = parents.get(id(n))
-                        if par is st or (isinstance(par, ast.AnnAssign) and par is st):
+                        if any(par is s_ for s_ in sts):
+                            continue
+                        if isinstance(par, ast.Assign) and par.value is n and len(par.targets) == 1 and isinstance(par.targets[0], (ast.Tuple, ast.List)) \
+                                and len(par.targets[0].elts) == len(records[cls]) and not any(isinstance(e_, ast.Starred) for e_ in par.targets[0].elts):
+                            continue  # a, b, c = v : the fields in order
+                        if isinstance(par, ast.Attribute) and par.value is n and par.attr in methods.get(cls, {}):
+                            gp = parents.get(id(par))
+                            if not (isinstance(gp, ast.Call) and gp.func is par and _bind_method(methods[cls][par.attr], gp) is not None):
+                                uses_ok = False
                             continue
                         if not (isinstance(par, ast.Attribute) and par.value is n and par.attr in records[cls]):
                             uses_ok = False
                 if not uses_ok:
                     continue
-                val = st.value  # type: ignore[attr-defined]
-                given = {k.arg: k.value for k in val.keywords if k.arg}
-                inits: List[ast.stmt] = []
+                inits_of: Dict[int, List[ast.stmt]] = {}
+                const_fields: Dict[str, ast.AST] = {}
                 complete = True
-                for fld, dv in records[cls].items():
-                    e = given.get(fld) or default_of(dv)
-                    if e is None:
-                        complete = False
-                        break
-                    inits.append(ast.Assign(targets=[ast.Name(id=f"{var}__{fld}", ctx=ast.Store())], value=e))
+                for s_ in sts:
+                    val = s_.value  # type: ignore[attr-defined]
+                    given = dict(zip(list(records[cls]), val.args))
+                    given.update({k.arg: k.value for k in val.keywords if k.arg})
+                    inits: List[ast.stmt] = []
+                    for fld, dv in records[cls].items():
+                        e = given.get(fld) or default_of(dv)
+                        if e is None:
+                            complete = False
+                            break
+                        if len(sts) == 1 and isinstance(e, ast.Constant):
+                            const_fields[fld] = e  # read in place: the use is the constant itself
+                            continue
+                        inits.append(ast.Assign(targets=[ast.Name(id=f"{var}__{fld}", ctx=ast.Store())], value=e))
+                    inits_of[id(s_)] = inits
                 if not complete:
                     continue
 
                 class _R(ast.NodeTransformer):
+                    def visit_Assign(self, node: ast.Assign):
+                        if isinstance(node.value, ast.Name) and node.value.id == var and len(node.targets) == 1 \
+                                and isinstance(node.targets[0], (ast.Tuple, ast.List)) and len(node.targets[0].elts) == len(records[cls]):
+                            node.value = ast.copy_location(ast.Tuple(elts=[
+                                copy.deepcopy(const_fields[f_]) if f_ in const_fields else ast.Name(id=f"{var}__{f_}", ctx=ast.Load())
+                                for f_ in records[cls]], ctx=ast.Load()), node.value)
+                            return node
+                        self.generic_visit(node)
+                        return node
+
+                    def visit_Call(self, node: ast.Call):
+                        f__ = node.func
+                        if isinstance(f__, ast.Attribute) and isinstance(f__.value, ast.Name) and f__.value.id == var \
+                                and f__.attr in methods.get(cls, {}):
+                            m_ = methods[cls][f__.attr]
+                            b_ = _bind_method(m_, node)
+                            if b_ is not None:
+                                selfname = m_.args.args[0].arg
+                                expr = copy.deepcopy(_body_wo_doc(m_)[0].value)
+
+                                class _M(ast.NodeTransformer):
+                                    def visit_Attribute(self, a_: ast.Attribute):
+                                        self.generic_visit(a_)
+                                        if isinstance(a_.value, ast.Name) and a_.value.id == selfname and a_.attr in records[cls]:
+                                            if a_.attr in const_fields and isinstance(a_.ctx, ast.Load):
+                                                return copy.deepcopy(const_fields[a_.attr])
+                                            return ast.Name(id=f"{var}__{a_.attr}", ctx=a_.ctx)
+                                        return a_
+
+                                    def visit_Name(self, n_: ast.Name):
+                                        if n_.id in b_ and isinstance(n_.ctx, ast.Load):
+                                            return copy.deepcopy(b_[n_.id])
+                                        return n_
+                                expr = _M().visit(expr)
+                                expr = self.visit(expr)  # arguments may mention var.<field> themselves
+                                return ast.copy_location(expr, node)
+                        self.generic_visit(node)
+                        return node
+
                     def visit_Attribute(self, node: ast.Attribute):
                         self.generic_visit(node)
                         if isinstance(node.value, ast.Name) and node.value.id == var and node.attr in records[cls]:
+                            if node.attr in const_fields and isinstance(node.ctx, ast.Load):
+                                return ast.copy_location(copy.deepcopy(const_fields[node.attr]), node)
                             return ast.copy_location(ast.Name(id=f"{var}__{node.attr}", ctx=node.ctx), node)
                         return node
 
                 def swap(stmts):
                     out = []
                     for x in stmts:
-                        if x is st:
-                            for i_ in inits:
-                                ast.copy_location(i_, st)
+                        if id(x) in inits_of:
+                            for i_ in inits_of[id(x)]:
+                                ast.copy_location(i_, x)
                                 ast.fix_missing_locations(i_)
-                            out += inits
+                            out += inits_of[id(x)]
                             continue
                         for fld_ in ("body", "orelse", "finalbody"):
                             v_ = getattr(x, fld_, None)
